@@ -160,6 +160,14 @@ def run(rep, wd, tier, seed):
             for lo in range(0, n, 400):
                 jobs.append((seed, cfgspec, codec, 'rand', lo, min(n, lo + 400)))
     outs = isocheck._pool(_drive, jobs)
+    # the same drivers from four threads at once (different configurations / code pages / message shapes per thread)
+    tjobs = [(seed, cfgspec, codec, 'rand', 5000 + 200 * i, 5000 + 200 * i + (400 if tier == 'thorough' else 160))
+             for i, (cfgspec, codec) in enumerate([(('pkg',), 'latin_1'), (('gen', seed * 100), 'cp500'), (('pkgvar', 0), 'cp037'),
+                                                   (('pkg',), 'cp500'), (('gen', seed * 100 + 1), 'latin_1'), (('pkgshuf', 1), 'cp500'),
+                                                   (('pkg',), 'cp037'), (('pkgvar', 1), 'latin_1')])]
+    jobs = jobs + tjobs
+    outs = outs + isocheck.mark_threaded(isocheck.threaded('harness.c01', '_drive', tjobs))
+    rep.extra['histories_driven_from_four_threads_at_once'] = sum(len(o) for o in outs[-len(tjobs):])
     groups = [(j[1], j[2], o) for j, o in zip(jobs, outs)]
     rep.extra['codecs'] = list(codecs)
     rep.extra['configurations'] = [list(c) for c in cfgs]
